@@ -69,7 +69,7 @@ LEVEL_TEXT = (
     "execution (text and parameter values in order), by induction with the invariant 'every entry under key k is the "
     "compilation of a statement with key k'. Per run: T and V are regenerated from the running source and "
     "covers gen_T (gen_V minus known gaps) = true is re-proved by vm_compute. Two refuted/guarded pairs: "
-    "bindparam.expanding is read by the compiler but not keyed; construct_params consults the cached bind's callable."
+    "Label.type is read by the compiler but not keyed; construct_params consults the cached bind's callable."
 )
 LEVEL_NOTE = (
     "partial: the read-set V is a SYNTACTIC analysis (dynamic getattr flagged, not followed; reads via compile_state "
@@ -202,18 +202,13 @@ IGNORED_CLASS = {
 # the bind values: what the re-binding carries, not part of the text ("*": any visit name)
 LITERAL = {("bindparam", "value"), ("bindparam", "callable"), ("bindparam", "effective_value"), ("*", "_params")}
 # known uncovered reads (each has a KNOWN-FINDING witness)
+# (bindparam.expanding, select._auto_correlate, insert.include_insert_from_select_defaults were gaps until the
+#  repairs f7c5c02 / 23e322e / 3e6ec7b put them into the keys; their witnesses stay in findings/C02.json as "fixed")
 GAPS = {
-    ("bindparam", "expanding"): "C02-bindparam-expanding-not-in-key",
     ("label", "type"): "C02-label-type-not-in-key",
-    ("select", "_auto_correlate"): "C02-select-correlate-none-not-in-key",
-    ("insert", "include_insert_from_select_defaults"): "C02-insert-from-select-include-defaults-not-in-key",
 }
 # a gap attribute is encoded relative to its default (None = default), so that "gap-free" means "default everywhere"
-GAP_DEFAULT = {
-    ("bindparam", "expanding"): False,
-    ("select", "_auto_correlate"): True,
-    ("insert", "include_insert_from_select_defaults"): True,
-}
+GAP_DEFAULT = {}
 
 STMT_NAMES = {"statement", "stmt", "select_statement", "insert_stmt", "update_stmt", "delete_stmt"}
 EXTRA_ROOTS = {
@@ -1435,12 +1430,9 @@ RELEVANT = {  # coordinate -> other coordinates that make it matter
     "opt": {"ent": 0}, "join": {"ent": 0}, "corr": {"where": 19}, "pm": {"where": 14, "bexp": 0, "bcall": 0},
     "neg": {"cols": 0}, "incdef": {"kind": 0, "vals": 4}, "col2": {"cols": 0, "group": 0}, "aname": {"frm": 4},
 }
-GAPCOORD = {
-    "bexp": "C02-bindparam-expanding-not-in-key",
+GAPCOORD = {  # bexp / corr / incdef are repaired: a hit on them is an ordinary violation again
     "ltype": "C02-label-type-not-in-key",
     "bcall": "C02-construct-params-callable-from-cached-bind",
-    "corr": "C02-select-correlate-none-not-in-key",
-    "incdef": "C02-insert-from-select-include-defaults-not-in-key",
 }
 
 
